@@ -131,6 +131,17 @@ CHECKS = {
         'position (tell() unchanged) and on 6 BOMs x 2304 declaration spellings; getMetaInfo, encodingByMediaType, tryEncodings tables. Exhaustive.',
         'Trusted: mc/model/ref_encutils.py. Documents shorter than 4 bytes are a listed known finding (pinned by a repository test).',
     ),
+    'C12': (
+        'model_checking',
+        'exhaustive enumeration of all call histories up to depth 2/3 over a 47-call alphabet (with injected faults), each in its own forked process; after the history the process-global state vector and a fixed probe battery are compared with a pristine process',
+        'DESIGN.md 3/C12',
+        'Every history of <=2 (quick, 2 257) / <=3 (thorough, 106 080) calls over 47 symbols - well-formed and malformed parses, undecodable bytes, raising / '
+        'empty fetchers, missing files, raising-mode parsers, long-lived parser objects, accepted and rejected DOM edits, serialisation under changed '
+        'preferences, csscombine variants, profile add/remove, explicit preference setting - is executed in a freshly forked process; after each parse call '
+        'the error mode, preferences and profiles must equal their values at call start; after the history a 15-probe battery and a parser-reuse probe '
+        'must give the results of a pristine process (or of the explicit settings made). Violations are reduced to histories in which every call is essential.',
+        'Trusted: the state vector G is only used for reporting; hidden state outside G is caught by the probe battery. Lazily compiled regexes are pre-compiled in the parent.',
+    ),
 }
 
 PENDING = {}
